@@ -276,10 +276,12 @@ class Runner:
     def __init__(self, c, harness, model):
         self.c, self.harness, self.model = c, harness, model
         self.n = 0
+        self.budget = 700   # replays available to the shrinker in one run
 
     def run(self, lines):
         """run both sides on the given case lines; returns (impl lines, model lines)"""
         self.n += 1
+        self.budget -= 1
         wd = os.path.join(self.c.work, "re%d" % self.n)
         os.makedirs(wd, exist_ok=True)
         inp = os.path.join(wd, "in.txt")
@@ -413,7 +415,7 @@ def shrink(rn, sline, dline, store, t, kind, text_of):
     budget = [70]
 
     def try_(dl, tt):
-        if budget[0] <= 0:
+        if budget[0] <= 0 or rn.budget <= 0:
             return False
         budget[0] -= 1
         return fails(dl, tt)
@@ -536,8 +538,9 @@ def main(argv):
         if fm[1] == "ok" and fm[4] != "-" and len(dline) > 20:
             # non-trivial: well-typed and selects at least one entity
             distinct.add((hash(dline), case.split()[2]))
-        if len(samples) < 4 and nq % 997 == 1:
-            samples.append(dict(filter=unhex(case.split()[2]).decode("utf-8", "replace"), impl=i, model=m))
+        if (len(samples) < 6 and nq % 997 == 1) or (len(samples) < 3 and fm[1] == "ok" and fm[4] != "-" and nq > 14000):
+            samples.append(dict(store=case.split()[1], filter=unhex(case.split()[2]).decode("utf-8", "replace"),
+                                term=" ".join(case.split()[3:])[:400], impl=i, model=m, dataset=dline[:600]))
         v = verdict(i, m)
         if v is None:
             continue
